@@ -27,6 +27,13 @@ Tolerances: |sum(P)-Pt| <= 32*eps*n*Pt; allocation 256*eps*(n*Pt + T) where T = 
 active threshold if the active thresholds differ (the rounding of N/(Es g) itself then
 moves the optimum) and 0 for tied / single active channels; KKT in differences form.
 
+Argument presentations: small problems with values exact in every type, gains handed
+over as float64 / int64 / int32 / uint8 / float32 arrays, strided, reversed and read-only
+views (and list / tuple: not the documented type, outcome only) x Pt, noise, Es as Python
+float / int, np.float32, np.int64, np.float64, 0-d arrays (all three jointly, and each on
+its own): allocation dtype floating, allocation and water level equal to the equal-valued
+float64 / Python-float call (float32 gains: 64 float32-ulps), input array untouched.
+
 Relations checked on every evaluation (reference model written here):
   R1  shape / finiteness, input array not modified
   R2  P_i >= 0
@@ -62,7 +69,9 @@ RULE = ("every ordered gain tuple of length 1..4 (thorough 1..5) over {1e-4,1e-2
         "within one ulp of every switch-on boundary (summed in 3 orders); plus scale families: multisets of "
         "length 1..3 with gains x{1e-15,1e-9,1e9} x noise x{1e-15,1e-9,1e9}, (Pt,noise) x{1e-12,1e12}, "
         "Es{1e-6,1e6}, wide alphabet {1e-20,1e-14,1e-7,1,1e8,1e16} x Pt{1,3,1e-12,1e12} x noise{1,1e-14,"
-        "1e-13,1e9} x Es{1,1e-6,1e6}, link-budget vectors. Each is run through doWF and compared with a reference water-filling, "
+        "1e-13,1e9} x Es{1,1e-6,1e6}, link-budget vectors; plus every presentation of the arguments (gain array dtypes int64/int32/uint8/"
+        "float32/float64, strided/reversed/read-only views, list/tuple; scalars as int/float/np.float32/np.int64/"
+        "np.float64/0-d arrays) compared with the equal-valued float64 call. Each is run through doWF and compared with a reference water-filling, "
         "a KKT certificate, the returned-level relation, every simplex-grid / pairwise-transfer "
         "competitor and the permuted run. Non-trivial: length>=2 and (gains not all equal or a "
         "channel switched off); distinct = (sorted gains, Pt, noise, Es)")
@@ -503,6 +512,9 @@ def all_jobs(tier):
 
 
 def run_job(chk, job):
+    if job[0] == "presentation":
+        run_presentation(chk, job)
+        return
     kind, g, Pt, N, Es = job
     if kind in ("alphabet", "boundary", "spread", "link_budget", "ratio"):
         run_multiset(chk, g, Pt, N, Es, kind)
@@ -521,6 +533,153 @@ def run_job(chk, job):
                     gp = tuple(g[i] for i in perm)
                     eval_case(chk, gp, Pt, N, Es, dict(case, gains=list(gp), sorted_gains=list(g)),
                               grid=False, canon=(res[0], res[1], perm))
+
+
+# ----------------------------------------------------------------------
+# argument presentations: the same VALUES handed over in every array / scalar type
+# ----------------------------------------------------------------------
+EPS32 = 2.0 ** -23
+GAIN_FORMS = ("float64", "int64", "int32", "uint8", "float32", "strided_view", "reversed_view",
+              "readonly", "list", "tuple")
+SCALAR_FORMS = ("float", "int", "np.float32", "np.int64", "np.float64", "0d_float", "0d_int")
+
+
+def present_gains(vals, how):
+    isint = all(float(v).is_integer() for v in vals)
+    if how in ("int64", "int32", "uint8"):
+        if not isint or (how == "uint8" and max(vals) > 255):
+            return None
+        return np.array([int(v) for v in vals], dtype=how)
+    if how == "float64":
+        return np.array(vals, dtype=np.float64)
+    if how == "float32":
+        return np.array(vals, dtype=np.float32)
+    if how == "strided_view":
+        big = np.full(2 * len(vals), 99.0)
+        big[::2] = vals
+        return big[::2]
+    if how == "reversed_view":
+        return np.array(list(vals)[::-1], dtype=float)[::-1]
+    if how == "readonly":
+        a = np.array(vals, dtype=float)
+        a.flags.writeable = False
+        return a
+    seq = [int(v) for v in vals] if isint else [float(v) for v in vals]
+    return seq if how == "list" else tuple(seq)
+
+
+def present_scalar(v, how):
+    isint = float(v).is_integer()
+    if how in ("int", "np.int64", "0d_int") and not isint:
+        return None
+    return {"float": lambda: float(v), "int": lambda: int(v), "np.float32": lambda: np.float32(v),
+            "np.int64": lambda: np.int64(int(v)), "np.float64": lambda: np.float64(v),
+            "0d_float": lambda: np.array(float(v)), "0d_int": lambda: np.array(int(v))}[how]()
+
+
+def presentation_problems(tier):
+    """values exactly representable in every type used (so equal-valued inputs are EQUAL inputs)"""
+    out = []
+    for n in (1, 2, 3):
+        for ms in itertools.combinations_with_replacement((4.0, 1.0, 2.0, 100.0), n):
+            for Pt, N, Es in ((3.0, 1.0, 1.0), (1.0, 2.0, 2.0), (50.0, 1.0, 2.0)):
+                out.append((ms, Pt, N, Es))
+    out.append(((4.0, 2.0, 1.0, 1.0, 100.0), 3.0, 1.0, 1.0))
+    out.append(((3.42, 3.35, 3.23), 10.0, 1.0, 1.0))          # integer Pt/N/Es, non-integer gains
+    for ms in ((0.5, 0.25), (3.0, 1.5, 0.25), (0.75,)):
+        out.append((ms, 0.75, 0.5, 0.5))
+    if tier == "thorough":
+        for s in range(12):
+            g = tuple(float(np.float32(v)) for v in generic_gains(3000 + s, 1 + s % 4))
+            out.append((g, float(np.float32(0.3)), 1.0, 0.5))
+    return out
+
+
+def presentation_jobs(tier):
+    for pi, (ms, Pt, N, Es) in enumerate(presentation_problems(tier)):
+        for gf in GAIN_FORMS:
+            for sf in SCALAR_FORMS:
+                yield ("presentation", ms, Pt, N, Es, gf, (sf, sf, sf))
+        for gf in ("float64", "int64"):
+            for pos in range(3):
+                for sf in SCALAR_FORMS[1:]:
+                    forms = ["float"] * 3
+                    forms[pos] = sf
+                    yield ("presentation", ms, Pt, N, Es, gf, tuple(forms))
+    # narrow unsigned gains with a PYTHON int symbol energy: Es*gain leaves the gain dtype
+    for ms, Pt, N, Es in (((200.0, 100.0, 50.0), 3.0, 1.0, 3.0), ((100.0, 90.0), 1.0, 1.0, 3.0)):
+        yield ("presentation", ms, Pt, N, Es, "uint8", ("float", "float", "int"))
+        yield ("presentation", ms, Pt, N, Es, "uint8", ("float", "float", "np.int64"))
+
+
+def run_presentation(chk, job):
+    """doWF on one presentation of the arguments == doWF on the equal-valued float64 / Python
+    float call (itself judged by R1-R8); the allocation must be a floating array"""
+    from pyphysim.comm.waterfilling import doWF
+    _, ms, Pt, N, Es, gf, sfs = job
+    case = {"kind": "presentation", "gains": list(ms), "Pt": Pt, "noise": N, "Es": Es,
+            "gains_as": gf, "scalars_as": list(sfs)}
+    garg = present_gains(ms, gf)
+    sargs = [present_scalar(v, f) for v, f in zip((Pt, N, Es), sfs)]
+    if garg is None or any(a is None for a in sargs):
+        chk.count("presentation_not_applicable")
+        return
+    gclass = ("integer_gains" if gf in ("int64", "int32", "uint8") else
+              "float32_gains" if gf == "float32" else
+              "view_gains" if gf in ("strided_view", "reversed_view", "readonly") else
+              "sequence_gains" if gf in ("list", "tuple") else "float64_gains")
+    sclass = "python_float_scalars" if set(sfs) == {"float"} else \
+        "scalars:" + "+".join(sorted(set(sfs) - {"float"}))
+    narrow = gf in ("uint8",) and sfs[2] == "int" and max(ms) * Es > 255
+    # one class per cause: the gain presentation if it is not plain float64, else the scalar presentation
+    sig = ("doWF", "presentation", "narrow_unsigned_gains_x_python_int_Es" if narrow else
+           (gclass if gclass != "float64_gains" else sclass))
+    with chk.guard(sig, case):
+        base_case = dict(case, kind="presentation_base", gains_as="float64", scalars_as=["float"] * 3)
+        base = eval_case(chk, ms, Pt, N, Es, base_case, grid=False)      # oracle side first
+        if base is None:
+            return
+        bP, bmu, btol = base
+        keep = np.array(garg) if isinstance(garg, np.ndarray) else None
+        chk.count("eval_doWF")
+        chk.count("eval_presentations")
+        if gf in ("list", "tuple"):
+            # a plain sequence is not the documented argument type (np.ndarray): the call as such
+            # is free (tools/INVALID_CALL_POLICY.md); if it returns, the result must be right
+            try:
+                P, mu = doWF(garg, *sargs)
+            except Exception as e:  # noqa
+                chk.outcome("invalid_call", ("gains_as_" + gf, "raised:" + type(e).__name__, "n/a"))
+                return
+            chk.outcome("invalid_call", ("gains_as_" + gf, "accepted", "n/a"))
+        else:
+            P, mu = doWF(garg, *sargs)
+        chk.outcome("presentations", (gf, sfs))
+        P = np.asarray(P)
+        if P.dtype.kind != "f":
+            chk.fail(sig + ("allocation_dtype_not_floating",), case, observed=str(P.dtype),
+                     expected="a floating dtype")
+        if P.shape != bP.shape or not np.all(np.isfinite(P.astype(float))) or not np.isfinite(float(mu)):
+            chk.fail(sig + ("malformed_result",), case, observed="shape %r" % (P.shape,), expected=bP.shape)
+            return
+        if keep is not None and not (garg.dtype == keep.dtype and np.array_equal(garg, keep)):
+            chk.fail(sig + ("input_modified",), case, observed=garg, expected=keep)
+        n = len(ms)
+        if gf == "float32" or "np.float32" in sfs:
+            # with a float32 argument numpy may carry the arithmetic out in float32 (float32 gains;
+            # uint8 gains x np.float32 scalar): tolerance in float32 ulps, against the reference
+            # evaluated on the float64 VALUE of the float32 input
+            tmax = max(thresholds(ms, N, Es)[i] for i in range(n) if bP[i] > 0)
+            tol = 64 * EPS32 * (n * Pt + tmax)
+            tol_mu = 64 * EPS32 * max(abs(bmu), Pt)
+        else:
+            tol = btol
+            tol_mu = C_TOL * EPS * max(abs(bmu), Pt)
+        if float(np.max(np.abs(P - bP))) > tol:
+            chk.fail(sig + ("allocation_differs_from_float64_call",), case, observed=P, expected=bP)
+        elif abs(float(mu) - bmu) > tol_mu:
+            chk.fail(sig + ("water_level_differs_from_float64_call",), case, observed=float(mu), expected=bmu)
+    chk.nontriv(("presentation", tuple(ms), Pt, N, Es, gf, tuple(sfs)))
 
 
 def defaults_case(chk):
@@ -552,6 +711,8 @@ def main(chk):
         for job in shard(all_jobs(c.tier), i, n):
             c.count("multisets_x_params")
             run_job(c, job)
+        for job in shard(presentation_jobs(c.tier), i, n):
+            run_job(c, job)
 
     # length-1 vectors and the tidy boundary vectors first, in the parent: the smallest witnesses are stored first
     for job in prelude_jobs():
@@ -570,6 +731,7 @@ def main(chk):
         raise Broken("vacuous: (length, active) pairs never reached: %r" % missing)
     chk.require_outcomes("active_channels", nmax * (nmax + 1) // 2)
     chk.require_outcomes("scale_family_active_channels", 12)
+    chk.require_outcomes("presentations", 40)
     decs = sorted(set(d for d, _ in chk.outcomes.get("ratio_decades", ())))
     chk.extra["ratio_noise_over_Es_gain_Pt_decades"] = [decs[0], decs[-1]] if decs else []
     if not decs or decs[0] > -12 or decs[-1] < 15:
@@ -582,6 +744,9 @@ def replay(case, chk):
     Pt, N, Es = float(case["Pt"]), float(case["noise"]), float(case["Es"])
     if case.get("kind") == "defaults":
         defaults_case(chk)
+        return
+    if case.get("kind") in ("presentation", "presentation_base"):
+        run_presentation(chk, ("presentation", g, Pt, N, Es, case["gains_as"], tuple(case["scalars_as"])))
         return
     if "base" in case:
         b = case["base"]
